@@ -68,7 +68,7 @@ Operated(e) ==
 
 (* allocation budget of an event (C18); -1 = unconstrained *)
 Budget(e, w, r) ==
-    IF r.res # "ok" THEN -1
+    IF r.res \notin {"ok", "havoc"} THEN -1        \* (an overlapping append within capacity still must not allocate)
     ELSE CASE e.op = "Alloc" -> -1
            [] e.op = "Drop"  -> -1
            [] e.op = "Slice" -> 1
